@@ -405,7 +405,7 @@ func (env *SpecEnv) evalCall(c *SCall) *Value {
 		return intV(env.state().alloc)
 	case "allocated":
 		v := env.eval(c.Args[0])
-		return boolV("(< " + scalarT(v, c) + " " + env.state().alloc + ")")
+		return boolV(and("(<= 0 "+scalarT(v, c)+")", "(< "+scalarT(v, c)+" "+env.state().alloc+")"))
 	case "ite":
 		cnd := env.evalBool(c.Args[0])
 		a := env.eval(c.Args[1])
